@@ -2,6 +2,7 @@ package rules
 
 import (
 	"fmt"
+	"strings"
 	"go/token"
 	"go/types"
 
@@ -116,6 +117,7 @@ func runC03(c *core.Ctx) {
 				return cc.IsInvoke() && cc.Method.Name() == "commitDirty" && isRecvField(fn, cc.Value, "root")
 			}, core.SuccessReturn, prune, "a dirty root is committed (error checked) before Commit returns nil")
 	}
+	c03ChildResolved(c)
 	c.Floor("C03/commit-writes-node", 3)
 	c.Floor("C03/commit-children-first", 2)
 	c.Floor("C03/stored-under-own-hash", 2)
@@ -229,4 +231,165 @@ func recvArrayElemIndex(fn *ssa.Function, v ssa.Value, field string) ssa.Value {
 		return nil
 	}
 	return ia.Index
+}
+
+// c03ChildResolved: "a child pointer that is handed on was first resolved". After Recreate (or a
+// commit that collapses nodes) a node holds only the HASH of its children; the pointers are nil
+// until resolveIfCollapsed loads them. A mutating operation that re-attaches recv.child /
+// recv.children[i] to another node, or calls a method on it, without a (checked) resolve on the
+// same receiver first - in the function itself or at every package-local call site of it - drops
+// the committed subtree of a recreated trie while behaving correctly on a fully in-memory one.
+// Loads that are explicitly tested against nil are exempt (the code handles the collapsed case).
+func c03ChildResolved(c *core.Ctx) {
+	const pkg = "data/trie"
+	const rule = "C03/child-resolved-before-use"
+	fns := c.P.FuncsOfPkg(pkg)
+	callers := map[*ssa.Function][]ssa.Instruction{}
+	for _, f := range fns {
+		core.Instrs(f, func(in ssa.Instruction) {
+			if cc := core.CallOf(in); cc != nil {
+				if g := cc.StaticCallee(); g != nil && g.Blocks != nil {
+					callers[g] = append(callers[g], in)
+				}
+			}
+		})
+	}
+	isResolve := func(recv ssa.Value) func(in ssa.Instruction, cc *ssa.CallCommon) bool {
+		return func(in ssa.Instruction, cc *ssa.CallCommon) bool {
+			d := core.CallDesc(cc)
+			if d.Name == "resolveIfCollapsed" && len(cc.Args) > 0 && core.Strip(cc.Args[0]) == recv {
+				return true
+			}
+			if d.Name == "resolveCollapsed" && len(cc.Args) > 0 && core.Strip(cc.Args[0]) == recv {
+				return true
+			}
+			return false
+		}
+	}
+	var resolvedAt func(f *ssa.Function, at ssa.Instruction, depth int) bool
+	resolvedAt = func(f *ssa.Function, at ssa.Instruction, depth int) bool {
+		recv := receiverOf(f)
+		if recv == nil {
+			return false
+		}
+		cv := core.NewCheckedVia(f, isResolve(recv))
+		if len(cv.Calls) > 0 && len(cv.Unhandled) == 0 {
+			q := core.PathQ{Fn: f, Via: cv.Via, ViaEdge: cv.ViaEdge, Target: func(in ssa.Instruction, _ *ssa.BasicBlock) bool { return in == at }}
+			if esc, _ := q.Escape(); esc == nil {
+				return true
+			}
+		}
+		if depth >= 2 {
+			return false
+		}
+		if len(callers[f]) == 0 {
+			// reached through the node interface: every invoke site in the package must have resolved the receiver it calls
+			n := 0
+			for _, g := range fns {
+				ok := true
+				core.Instrs(g, func(in ssa.Instruction) {
+					cc := core.CallOf(in)
+					if cc == nil || !cc.IsInvoke() || cc.Method.Name() != f.Name() {
+						return
+					}
+					n++
+					key := core.ExprKey(cc.Value)
+					cvI := core.NewCheckedVia(g, func(i2 ssa.Instruction, c2 *ssa.CallCommon) bool {
+						return core.CallDesc(c2).Name == "resolveIfCollapsed" && len(c2.Args) > 0 && core.ExprKey(core.Strip(c2.Args[0])) == key
+					})
+					q := core.PathQ{Fn: g, Via: cvI.Via, ViaEdge: cvI.ViaEdge, Target: func(i2 ssa.Instruction, _ *ssa.BasicBlock) bool { return i2 == in }}
+					if esc, _ := q.Escape(); esc != nil || len(cvI.Calls) == 0 || len(cvI.Unhandled) > 0 {
+						ok = false
+					}
+				})
+				if !ok {
+					return false
+				}
+			}
+			return n > 0
+		}
+		for _, cs := range callers[f] {
+			cc := core.CallOf(cs)
+			g := cs.Parent()
+			if len(cc.Args) == 0 || receiverOf(g) == nil || core.Strip(cc.Args[0]) != ssa.Value(receiverOf(g)) {
+				return false
+			}
+			if !resolvedAt(g, cs, depth+1) {
+				return false
+			}
+		}
+		return true
+	}
+	mutators := map[string]bool{"insert": true, "delete": true, "insertInSameEn": true, "insertInNewBn": true, "insertOnExistingChild": true, "insertOnNilChild": true, "reduceNode": true}
+	n := 0
+	for _, f := range fns {
+		recv := receiverOf(f)
+		if recv == nil || !mutators[f.Name()] {
+			continue
+		}
+		tn := namedElem(recv.Type())
+		if tn == nil || (tn.Obj().Name() != "extensionNode" && tn.Obj().Name() != "branchNode") {
+			continue
+		}
+		core.Instrs(f, func(in ssa.Instruction) {
+			ld, ok := in.(*ssa.UnOp)
+			if !ok {
+				return
+			}
+			isChild := isRecvField(f, ld, "child") || recvArrayElemIndex(f, ld, "children") != nil
+			if !isChild {
+				return
+			}
+			// how is the loaded child used?
+			handedOn := ""
+			for _, r := range *ld.Referrers() {
+				switch x := r.(type) {
+				case *ssa.Call:
+					if x.Call.IsInvoke() && x.Call.Value == ssa.Value(ld) {
+						handedOn = "method " + x.Call.Method.Name() + " called on it"
+					}
+					for _, a := range x.Call.Args {
+						if core.Strip(a) == ssa.Value(ld) && strings.HasPrefix(core.CallDesc(&x.Call).Name, "new") {
+							handedOn = "passed to " + core.CallDesc(&x.Call).Name
+						}
+					}
+				case *ssa.Store:
+					if x.Val == ssa.Value(ld) && rootBase(rootOfAddr(x.Addr)) != ssa.Value(recv) {
+						handedOn = "stored into another node"
+					}
+				case *ssa.MakeInterface:
+					for _, rr := range *x.Referrers() {
+						if st, ok := rr.(*ssa.Store); ok && rootBase(rootOfAddr(st.Addr)) != ssa.Value(recv) {
+							handedOn = "stored into another node"
+						}
+						if call, ok := rr.(*ssa.Call); ok && strings.HasPrefix(core.CallDesc(&call.Call).Name, "new") {
+							handedOn = "passed to " + core.CallDesc(&call.Call).Name
+						}
+					}
+				}
+			}
+			if handedOn == "" {
+				return
+			}
+			n++
+			c.Sites++
+			name := fmt.Sprintf("%s/child-use#%d(%s)", fname(f), n, handedOn)
+			c.Check(resolvedAt(f, ld, 0), rule, name, ld.Pos(), "a checked resolveIfCollapsed on the node precedes this use (here or at every call site)",
+				"the child pointer is "+handedOn+" without a preceding checked resolveIfCollapsed on this node: on a recreated/collapsed trie the pointer is nil and the committed subtree is dropped")
+		})
+	}
+	c.Floor(rule, 4)
+}
+
+func rootOfAddr(a ssa.Value) ssa.Value {
+	for {
+		switch x := a.(type) {
+		case *ssa.FieldAddr:
+			a = x.X
+		case *ssa.IndexAddr:
+			a = x.X
+		default:
+			return a
+		}
+	}
 }
